@@ -111,6 +111,9 @@ fn scaled(kind: &str, n: usize) -> Vec<u8> {
         "expr-calls" => { s.push_str("<rect wh=\"{{"); for _ in 0..n { s.push_str("abs("); } s.push('1'); for _ in 0..n { s.push(')'); } s.push_str("}} 2\"/>"); }
         // attributes of one scope, each the previous one: evaluated lazily, one level of recursion per link
         "scope-chain" => { s.push_str("<g v0=\"1\""); for i in 1..n { s.push_str(&format!(" v{i}=\"$v{}\"", i - 1)); } s.push_str(&format!("><rect wh=\"{{{{$v{}}}}} 2\"/></g>", n - 1)); }
+        // n nested groups, each holding one resolvable sibling before the next group, a dangling reference
+        // innermost: every level retries its failing child once more after its sibling resolved
+        "nested-fail" => { for i in 0..n { s.push_str(&format!("<g><rect id=\"r{i}\" wh=\"1\"/>")); } s.push_str("<rect xy=\"#missing|h\" wh=\"1\"/>"); for _ in 0..n { s.push_str("</g>"); } }
         "use-chain" => { s.push_str("<rect id=\"u0\" wh=\"2\"/>"); for i in 1..n { s.push_str(&format!("<use id=\"u{i}\" href=\"#u{}\" x=\"1\"/>", i - 1)); } s.push_str(&format!("<rect xy=\"#u{}|h\" wh=\"1\"/>", n - 1)); }
         "reuse-self" => { s.push_str("<specs><g id=\"t\"><rect wh=\"1\"/><reuse href=\"#t\"/></g></specs><reuse href=\"#t\"/>"); }
         // a container that fails on every attempt while registering a different id each time: the retry
@@ -149,6 +152,7 @@ fn judge_isolated(rep: &mut Report, st: &mut Stream, cases: &[Vec<u8>], tags: &[
                 let sig = match (kind, tag.as_str()) {
                     ("abort", t) if t.starts_with("scale:expr-parens") => "C01:deep-nesting:expr".to_string(),
                     ("hang", t) if t.starts_with("scale:scope-lookup") => "C01:exponential-lookup".to_string(),
+                    ("hang", t) if t.starts_with("scale:nested-fail") => "C01:exponential-nested-retry".to_string(),
                     _ => format!("C01:{kind}:{}", tag.split(':').nth(1).unwrap_or(tag)),
                 };
                 rep.violation(Violation { kind: "oracle", stream: st.name.clone(), signature: sig, what: format!("the transform does not return: {e}"), replay: json!({"input_hex": hex(c), "input_shown": shown(c), "generator": tag}), confirmed_on_impl: true });
@@ -275,6 +279,54 @@ pub fn replay(rep: &mut Report, v: &serde_json::Value) {
     rep.streams.push(st);
 }
 
+/// The structured generators of the other properties (relative placement, shorthand spellings,
+/// containment, connectors, scoping, loops, limits, reuse, text, extents) reach corners of the code that
+/// byte-level fuzzing does not: degenerate but valid geometry, long well-formed programs. Each of their
+/// harnesses already converts a panic into a violation of its own; here their quick runs are repeated
+/// with this run's seed and every panic they meet is a violation of C01.
+fn sweep_other_generators(rep: &mut Report, tier: &str, seed: u64) {
+    let mut st = Stream::new("sweep/structured-generators", "oracle", "the document generators of C08 C09 C10 C11 C12 C13 C15 C16 C17 C18 C19 (their quick streams, seeded from this run) re-run in process: any panic met while transforming their documents is a C01 violation (other findings of those harnesses are theirs to report)");
+    type Run = fn(&mut Report, &str, u64) -> Result<(), String>;
+    let runs: [(&str, Run); 11] = [
+        ("C08", crate::c08::run), ("C09", crate::c09::run), ("C10", crate::c10::run), ("C11", crate::c11::run), ("C12", crate::c12::run), ("C13", crate::c13::run),
+        ("C15", crate::c15::run), ("C16", crate::c16::run), ("C17", crate::c17::run), ("C18", crate::c18::run), ("C19", crate::c19::run),
+    ];
+    // thorough: three seeds per generator; quick: one
+    let rounds = if tier == "thorough" { 3 } else { 1 };
+    // the generators are independent (each has its own model process): one thread each
+    let subs: Vec<(&str, Report, Result<(), String>)> = std::thread::scope(|sc| {
+        let mut hs = vec![];
+        for (name, run) in runs {
+            for r in 0..rounds {
+                hs.push(sc.spawn(move || {
+                    let sd = seed.wrapping_mul(31).wrapping_add(7 + r);
+                    let mut sub = Report::new(name, "quick", sd);
+                    let res = run(&mut sub, "quick", sd);
+                    (name, sub, res)
+                }));
+            }
+        }
+        hs.into_iter().filter_map(|h| h.join().ok()).collect()
+    });
+    for (name, sub, res) in subs {
+        let cases: u64 = sub.streams.iter().map(|s| s.cases).sum();
+        st.cases += cases;
+        for s in &sub.streams { st.nontrivial.extend(s.nontrivial.iter().copied()); }
+        st.tally(&format!("generator={name}"));
+        if let Err(e) = res { rep.notes.push(format!("sweep {name}: {e}")); }
+        let mut clean = true;
+        for v in sub.violations {
+            let text = format!("{} {}", v.signature, v.what);
+            if text.contains("panic") {
+                clean = false;
+                rep.violation(Violation { kind: "oracle", stream: st.name.clone(), signature: format!("C01:panic:{name}"), what: format!("panic while transforming a document of the {name} generator: {}", v.what), replay: v.replay, confirmed_on_impl: true });
+            }
+        }
+        if clean { st.exact += cases; }
+    }
+    rep.streams.push(st);
+}
+
 pub fn run(rep: &mut Report, tier: &str, seed: u64) -> Result<(), String> {
     let mut rng = Rng::new(seed);
     let thorough = tier == "thorough";
@@ -304,7 +356,7 @@ pub fn run(rep: &mut Report, tier: &str, seed: u64) -> Result<(), String> {
     let mut tags = vec![];
     let sizes: &[(&str, &[usize])] = &[
         ("siblings", &[100, 1000, 4000]), ("nesting", &[50, 99, 100, 101, 1000, 20000]), ("chain-forward", &[20, 80, 200]), ("chain-prev", &[100, 1000]),
-        ("loop", &[10, 999, 1000, 1001]), ("path", &[100, 10000, 100000]), ("points", &[100, 10000]), ("expr-sum", &[10, 1000, 20000]), ("expr-parens", &[10, 100, 101, 3000, 20000, 100000]), ("expr-minus", &[10, 100, 101, 3000, 20000, 100000]), ("expr-calls", &[10, 101, 3000, 20000]), ("scope-chain", &[10, 100, 102, 2000]),
+        ("loop", &[10, 999, 1000, 1001]), ("path", &[100, 10000, 100000]), ("points", &[100, 10000]), ("expr-sum", &[10, 1000, 20000]), ("expr-parens", &[10, 100, 101, 3000, 20000, 100000]), ("expr-minus", &[10, 100, 101, 3000, 20000, 100000]), ("expr-calls", &[10, 101, 3000, 20000]), ("scope-chain", &[10, 100, 102, 2000]), ("nested-fail", &[2, 6, 10]),
         ("var-chain", &[10, 300]), ("scope-lookup", &[5, 12]), ("use-chain", &[10, 300]), ("reuse-self", &[1]), ("idle-var-ids", &[0, 1, 3]), ("idle-random-ids", &[1, 2, 4]), ("idle-loop-ids", &[1, 3]), ("text-lines", &[10, 2000]), ("classes", &[10, 2000]),
     ];
     for (k, ns) in sizes {
@@ -320,5 +372,6 @@ pub fn run(rep: &mut Report, tier: &str, seed: u64) -> Result<(), String> {
     let mut drv = Driver::start()?;
     path_stream(rep, &mut drv, &mut rng.fork(), n_path)?;
     frontends_stream(rep, &mut rng.fork(), n_front);
+    sweep_other_generators(rep, tier, seed);
     Ok(())
 }
